@@ -219,11 +219,28 @@ def run_case(case, rec, ssj=None):
         tok_before = T.tokenizer_state(tok_obj) if tok_obj is not None else None
         flips_before = len(monitors.tok_counts(tok_obj)[1]) if tok_obj is not None else 0
         raised = None
+        gstate = monitors.global_state()
         try:
             res = T.exec_call(ssj, run_call, shared)
         except Exception as e:
             raised = e
         rec.count('calls')
+        gafter = monitors.global_state()
+        rec.count('global_state_snapshots_compared')
+        if gafter != gstate:
+            diff = sorted(k for k in gafter if gafter[k] != gstate.get(k))
+            rec.violation('global_state', 'history seed=%d step %d/%d %s changed process-wide state that '
+                          'later calls depend on: %s' % (case['seed'], k, nsteps, api, ', '.join(
+                              '%s: %s -> %s' % (d, gstate.get(d), gafter[d]) for d in diff[:4])),
+                          case=dict(case, step=k))
+            # restore what can be restored so that the rest of the history is judged on its own
+            for d in diff:
+                if d.startswith('pd:'):
+                    try:
+                        import pandas as pd
+                        pd.set_option(d[3:], eval(gstate[d]))
+                    except Exception:
+                        pass
         rec.add('api', api if 'filter' not in call else api + ':' + call['filter']['kind'])
         where = 'history seed=%d step %d/%d %s ' % (case['seed'], k, nsteps, api)
         # (i) inputs untouched
